@@ -10,14 +10,17 @@ engine (`Engine.evalExpr`) report a failure whenever `st'.err = some _` (`observ
 * `sticky_is_first_failure`, `sticky_exception_exact`   — with an error recorded every visit returns nil at once
 * `short_circuit_and`, `short_circuit_or`, `cond_selects_true/false` — unselected operands contribute nothing
 * `error_propagates_*`                                   — per constructor: the FIRST error survives the compound
+* `nothing_called_after_failure`                          — at every depth: after the first failure no user function runs
 * `calls_are_prefix_closed`, `no_value_for_failure`       — the log only grows; a recorded error is never cleared
 
-FINDING (recorded by `call_after_failure` below, confirmed on the Go code): the visitor does not stop at a failure,
-it continues with `nil` substituted for the failed operand.  `nil` can flow through `+` (string concatenation
-formats it as `<nil>`) and `==`/`!=` into a non-nil value, so a callee expression evaluated AFTER a failure can
-still yield a function, and a call without arguments does not re-check the error: `m["f" + nosuch]()` calls
-`m["f<nil>"]` although `nosuch` failed.  The evaluation still fails with the FIRST error (`error_propagates_callee`),
-but the side effect happens.  Everywhere else nothing is called after a failure (`s.calls = s1.calls` below). -/
+FIXED FINDING (history): the visitor does not stop at a failure, it continues with `nil` substituted for the failed
+operand.  `nil` can flow through `+` (string concatenation formats it as `<nil>`) and `==`/`!=` into a non-nil value,
+so a callee expression evaluated AFTER a failure can still yield a function, and a call without arguments did not
+re-check the error: `m["f" + nosuch]()` CALLED `m["f<nil>"]` although `nosuch` had failed (the error was still
+returned, the side effect happened).  `VisitPrimaryExpr` now returns right after a failed primary expression
+(`callStep` starts with the error check), so the callee case is as strict as all the others
+(`error_propagates_callee`), the former witness calls nothing (`no_call_after_failure`) and the general statement
+`nothing_called_after_failure` holds. -/
 namespace EV
 open EL (E)
 
@@ -243,38 +246,23 @@ theorem error_propagates_slice_base {e : E} (lo hi cap : Option E) {st s1 : St} 
   exact KeepsErr.of_resp (sliceStep_resp RQ.good pv _ (evalOpt_quiet fns data lo) (evalOpt_quiet fns data hi)
     (evalOpt_quiet fns data cap)) hx
 
-/-- The callee of a call.  The first error is kept and the log only grows — but see the FINDING in the header:
-    when the callee still yields a function and there are no arguments, that function IS called. -/
+/-- The callee of a call, with or without arguments, whatever value the failed callee expression yields (it need
+    not be nil: `"f" + nosuch` is `"f<nil>"`): the call returns nil in the state right after the callee: the error
+    is kept, no argument is evaluated, nothing is called. -/
 theorem error_propagates_callee {e : E} (args : List E) (ell : Bool) {st s1 : St} {pv : Val} {x : Err}
     (h : st.err = none) (he : eval fns data e st = .ok (pv, s1)) (hx : s1.err = some x) :
-    ∀ v s, eval fns data (.call e args ell) st = .ok (v, s) → s.err = some x ∧ s1.calls <:+ s.calls := by
-  intro v s hr
-  rw [eval_call_eq fns data args ell h he] at hr
-  have := callStep_resp fns pv args.isEmpty ell (evalArgs_mono fns data args) s1 v s hr
-  exact ⟨this.1 x hx, this.2⟩
-
-/-- … and with at least one argument, or a callee value that is not a function, nothing is called -/
-theorem error_propagates_callee_strict {e : E} (args : List E) (ell : Bool) {st s1 : St} {pv : Val} {x : Err}
-    (h : st.err = none) (he : eval fns data e st = .ok (pv, s1)) (hx : s1.err = some x)
-    (hs : args ≠ [] ∨ isFuncVal pv = false) :
     eval fns data (.call e args ell) st = .ok (.nil, s1) := by
   rw [eval_call_eq fns data args ell h he]
-  unfold callStep
-  by_cases hf : isFuncVal pv = true
-  · have hne : args ≠ [] := by
-      rcases hs with hs | hs
-      · exact hs
-      · rw [hf] at hs; cases hs
-    have hemp : args.isEmpty = false := by
-      cases args with
-      | nil => exact absurd rfl hne
-      | cons a as => rfl
-    simp only [hf, hemp, Bool.not_true, Bool.false_eq_true, if_false]
-    rw [bind_apply, hasErr_apply]
-    simp [hx, pure_apply]
-  · have hf' : isFuncVal pv = false := by cases hv : isFuncVal pv <;> simp_all
-    simp only [hf', Bool.not_false, if_true]
-    exact setErr_of_err hx
+  exact callStep_of_err fns pv _ ell _ hx
+
+/-- … in the shape of the other lemmas -/
+theorem error_propagates_callee_keeps {e : E} (args : List E) (ell : Bool) {st s1 : St} {pv : Val} {x : Err}
+    (h : st.err = none) (he : eval fns data e st = .ok (pv, s1)) (hx : s1.err = some x) :
+    KeepsErr s1 x (eval fns data (.call e args ell) st) := by
+  intro v s hr
+  rw [error_propagates_callee fns data args ell h he hx] at hr
+  cases hr
+  exact ⟨hx, rfl⟩
 
 /-- evaluation of an argument list splits at every position -/
 theorem evalArgs_append (pre post : List E) (st : St) :
@@ -315,12 +303,9 @@ theorem error_propagates_arg {e a : E} (pre post : List E) (ell : Bool) {st s1 s
     (ha : eval fns data a s2 = .ok (v, s3)) (hx : s3.err = some x) :
     ∀ w s, eval fns data (.call e (pre ++ a :: post) ell) st = .ok (w, s) → w = .nil ∧ s = s3 := by
   intro w s hr
-  rw [eval_call_eq fns data _ ell h he] at hr
-  unfold callStep at hr
+  rw [eval_call_eq fns data _ ell h he, callStep_of_ok fns pv _ ell _ h1] at hr
   have hemp : (pre ++ a :: post).isEmpty = false := by cases pre <;> rfl
   simp only [hf, hemp, Bool.not_true, Bool.false_eq_true, if_false] at hr
-  rw [bind_apply, hasErr_apply] at hr
-  simp only [h1, Option.isSome_none, Bool.false_eq_true, if_false] at hr
   rw [bind_apply, evalArgs_append, bind_apply_ok hpre, evalArgs, bind_apply, bind_apply_ok ha, bind_apply] at hr
   cases hpost : evalArgs fns data post s3 with
   | error u => rw [hpost] at hr; cases hr
@@ -375,21 +360,27 @@ theorem error_propagates_failed {s1 : St} {x : Err} {r : Except Unit (Val × St)
 follow the evaluation order of the visitor (operands that `&&`, `||`, `?:` do not select are NOT reachable).
 `error_propagates_deep`: an error recorded by a sub-expression evaluated at any depth is the error of the whole. -/
 
-/-- `r` is the sub-evaluation `m` run from `s_in`, followed by a continuation that keeps a recorded error -/
+/-- `r` is the sub-evaluation `m` run from `s_in`, followed by a continuation that keeps a recorded error, only
+    extends the call log and — once an error is recorded — does not touch the log at all (`RS`) -/
 def Through (r : Except Unit (Val × St)) (m : M Val) (s_in : St) : Prop :=
-  ∃ k : Val → M Val, (∀ v, Resp RM (k v)) ∧ r = (m >>= k) s_in
+  ∃ k : Val → M Val, (∀ v, Resp RS (k v)) ∧ r = (m >>= k) s_in
 
-theorem Through.keeps {r : Except Unit (Val × St)} {m : M Val} {s_in : St} {x : Err} (h : Through r m s_in)
-    (ih : ∀ w s, m s_in = .ok (w, s) → s.err = some x) : ∀ w s, r = .ok (w, s) → s.err = some x := by
+/-- an error recorded by the sub-evaluation is the error of the whole, and the log stays as the sub-evaluation
+    left it -/
+theorem Through.keeps {r : Except Unit (Val × St)} {m : M Val} {s_in s1 : St} {v : Val} {x : Err}
+    (h : Through r m s_in) (hm : m s_in = .ok (v, s1)) (hx : s1.err = some x) : KeepsErr s1 x r := by
   obtain ⟨k, hk, rfl⟩ := h
   intro w s hr
-  rw [bind_apply] at hr
-  cases hm : m s_in with
-  | error u => rw [hm] at hr; cases hr
-  | ok p =>
-    obtain ⟨v, s1⟩ := p
-    rw [hm] at hr
-    exact (hk v s1 w s hr).1 x (ih v s1 hm)
+  rw [bind_apply_ok hm] at hr
+  exact (hk v s1 w s hr).2 x hx
+
+/-- whatever the sub-evaluation does: the log it leaves is extended, never rewritten -/
+theorem Through.log_grows {r : Except Unit (Val × St)} {m : M Val} {s_in s1 : St} {v : Val}
+    (h : Through r m s_in) (hm : m s_in = .ok (v, s1)) : ∀ w s, r = .ok (w, s) → s1.calls <:+ s.calls := by
+  obtain ⟨k, hk, rfl⟩ := h
+  intro w s hr
+  rw [bind_apply_ok hm] at hr
+  exact (hk v s1 w s hr).1.2
 
 /-- a panic of the sub-evaluation is a panic of the whole -/
 theorem Through.panics {r : Except Unit (Val × St)} {m : M Val} {s_in : St} (h : Through r m s_in)
@@ -398,7 +389,7 @@ theorem Through.panics {r : Except Unit (Val × St)} {m : M Val} {s_in : St} (h 
   exact bind_apply_error hp
 
 theorem Through.self (m : M Val) (s : St) : Through (m s) m s :=
-  ⟨pure, fun v => Resp.pure RM.good v, by rw [bind_pure]⟩
+  ⟨pure, fun v => Resp.pure RS.good v, by rw [bind_pure]⟩
 
 theorem Through.trans {r : Except Unit (Val × St)} {m m' : M Val} {s s' : St} (h1 : Through r m s)
     (h2 : Through (m s) m' s') : Through r m' s' := by
@@ -412,7 +403,7 @@ theorem Through.trans {r : Except Unit (Val × St)} {m m' : M Val} {s s' : St} (
     | ok p =>
       obtain ⟨w', t'⟩ := p
       rw [hk] at hr
-      exact RM.good.trans (hk2 v t w' t' hk) (hk1 w' t' w t'' hr)
+      exact RS.good.trans (hk2 v t w' t' hk) (hk1 w' t' w t'' hr)
   · rw [bind_apply, h2, bind_apply, bind_apply]
     cases m' s' with
     | error u => rfl
@@ -432,18 +423,18 @@ theorem through_paren {e : E} (h : st.err = none) : Through (eval fns data (.par
 theorem through_un (op : String) {e : E} (h : st.err = none) :
     Through (eval fns data (.un op e) st) (eval fns data e) st := by
   rw [eval, guardErr_ok h]
-  exact ⟨_, fun v => Resp.ofN RM.good (unOp_resp op v), rfl⟩
+  exact ⟨_, fun v => Resp.ofN RS.good (unOp_resp op v), rfl⟩
 
 theorem through_bin_left (op : String) (l r : E) (h : st.err = none) :
     Through (eval fns data (.bin op l r) st) (eval fns data l) st := by
   rw [eval_bin_eq fns data op l r h]
   unfold binStep
   split
-  · exact ⟨_, fun a => andStep_resp RM.good a (eval_mono fns data r), rfl⟩
+  · exact ⟨_, fun a => andStep_resp RS.good a (eval_rs fns data r), rfl⟩
   · split
-    · exact ⟨_, fun a => orStep_resp RM.good a (eval_mono fns data r), rfl⟩
-    · exact ⟨_, fun a => Resp.bind RM.good (eval_mono fns data r)
-        (fun b => Resp.ofN RM.good (binOp_resp fns op a b)), rfl⟩
+    · exact ⟨_, fun a => orStep_resp RS.good a (eval_rs fns data r), rfl⟩
+    · exact ⟨_, fun a => Resp.bind RS.good (eval_rs fns data r)
+        (fun b => Resp.ofN RS.good (binOp_resp fns op a b)), rfl⟩
 
 theorem through_bin_right {op : String} {l : E} (r : E) {a : Val} (h : st.err = none)
     (hl : eval fns data l st = .ok (a, s1)) (hand : op = "&&" → a ≠ .bool false) (hor : op = "||" → a ≠ .bool true) :
@@ -451,20 +442,20 @@ theorem through_bin_right {op : String} {l : E} (r : E) {a : Val} (h : st.err = 
   by_cases h1 : op = "&&"
   · subst h1
     rw [and_evaluates_right fns data r h hl (hand rfl)]
-    exact ⟨_, fun b => Resp.ofN RM.good (logOp_resp _ a b), rfl⟩
+    exact ⟨_, fun b => Resp.ofN RS.good (logOp_resp _ a b), rfl⟩
   · by_cases h2 : op = "||"
     · subst h2
       rw [or_evaluates_right fns data r h hl (hor rfl)]
-      exact ⟨_, fun b => Resp.ofN RM.good (logOp_resp _ a b), rfl⟩
+      exact ⟨_, fun b => Resp.ofN RS.good (logOp_resp _ a b), rfl⟩
     · rw [eval_bin_eq fns data op l r h]
       unfold binStep
       rw [if_neg h1, if_neg h2, bind_apply_ok hl]
-      exact ⟨_, fun b => Resp.ofN RM.good (binOp_resp fns op a b), rfl⟩
+      exact ⟨_, fun b => Resp.ofN RS.good (binOp_resp fns op a b), rfl⟩
 
 theorem through_cond (c a b : E) (h : st.err = none) :
     Through (eval fns data (.cond c a b) st) (eval fns data c) st := by
   rw [eval, guardErr_ok h]
-  exact ⟨_, fun cv => condStep_resp RM.good cv (eval_mono fns data a) (eval_mono fns data b), rfl⟩
+  exact ⟨_, fun cv => condStep_resp RS.good cv (eval_rs fns data a) (eval_rs fns data b), rfl⟩
 
 theorem through_cond_branch {c : E} (a b : E) {t : Bool} (h : st.err = none)
     (hc : eval fns data c st = .ok (.bool t, s1)) :
@@ -476,31 +467,31 @@ theorem through_cond_branch {c : E} (a b : E) {t : Bool} (h : st.err = none)
 theorem through_field (e : E) (safe : Bool) (n : String) (h : st.err = none) :
     Through (eval fns data (.field e safe n) st) (eval fns data e) st := by
   rw [eval, guardErr_ok h]
-  exact ⟨_, fun pv => Resp.ofN RM.good (lookRes_resp _), rfl⟩
+  exact ⟨_, fun pv => Resp.ofN RS.good (lookRes_resp _), rfl⟩
 
 theorem through_index_base (e i : E) (h : st.err = none) :
     Through (eval fns data (.index e i) st) (eval fns data e) st := by
   rw [eval, guardErr_ok h]
-  exact ⟨_, fun pv => Resp.bind RM.good (eval_mono fns data i)
-    (fun iv => Resp.ofN RM.good (indexOp_resp pv iv)), rfl⟩
+  exact ⟨_, fun pv => Resp.bind RS.good (eval_rs fns data i)
+    (fun iv => Resp.ofN RS.good (indexOp_resp pv iv)), rfl⟩
 
 theorem through_index {e : E} (i : E) {pv : Val} (h : st.err = none) (he : eval fns data e st = .ok (pv, s1)) :
     Through (eval fns data (.index e i) st) (eval fns data i) s1 := by
   rw [eval, guardErr_ok h, bind_apply_ok he]
-  exact ⟨_, fun iv => Resp.ofN RM.good (indexOp_resp pv iv), rfl⟩
+  exact ⟨_, fun iv => Resp.ofN RS.good (indexOp_resp pv iv), rfl⟩
 
 theorem through_slice_base (e : E) (lo hi cap : Option E) (h : st.err = none) :
     Through (eval fns data (.slice e lo hi cap) st) (eval fns data e) st := by
   rw [eval, guardErr_ok h]
-  exact ⟨_, fun pv => sliceStep_resp RM.good pv _ (evalOpt_mono fns data lo) (evalOpt_mono fns data hi)
-    (evalOpt_mono fns data cap), rfl⟩
+  exact ⟨_, fun pv => sliceStep_resp RS.good pv _ (evalOpt_rs fns data lo) (evalOpt_rs fns data hi)
+    (evalOpt_rs fns data cap), rfl⟩
 
-/-- discharge the `Resp RM` obligation of the remainder of `sliceStep` -/
+/-- discharge the `Resp RS` obligation of the remainder of `sliceStep` -/
 local macro "slice_rest" fns:term:max data:term:max : tactic =>
   `(tactic| repeat' (first
-      | exact evalOpt_mono $fns $data _ _
-      | exact Resp.pure RM.good _ | exact Resp.setErr RM.good _ _ | exact Resp.unsupp RM.good | exact Resp.goPanic
-      | (refine Resp.bind RM.good ?_ (fun _ => ?_))
+      | exact evalOpt_rs $fns $data _ _
+      | exact Resp.pure RS.good _ | exact Resp.setErr RS.good _ _ | exact Resp.unsupp RS.good | exact Resp.goPanic
+      | (refine Resp.bind RS.good ?_ (fun _ => ?_))
       | (dsimp only)
       | split))
 
@@ -543,26 +534,18 @@ theorem through_slice_cap {e : E} (lo hi : Option E) (ex : E) {pv : Val} {t : St
 theorem through_callee (e : E) (args : List E) (ell : Bool) (h : st.err = none) :
     Through (eval fns data (.call e args ell) st) (eval fns data e) st := by
   rw [eval, guardErr_ok h]
-  exact ⟨_, fun pv => callStep_resp fns pv _ ell (evalArgs_mono fns data args), rfl⟩
+  exact ⟨_, fun pv => callStep_rs fns pv _ ell (evalArgs_mono fns data args), rfl⟩
 
 theorem through_arg {e : E} (pre : List E) (a : E) (post : List E) (ell : Bool) {pv : Val} {vs : List Val}
     (h : st.err = none) (he : eval fns data e st = .ok (pv, s1)) (h1 : s1.err = none) (hf : isFuncVal pv = true)
     (hpre : evalArgs fns data pre s1 = .ok (vs, s2)) :
     Through (eval fns data (.call e (pre ++ a :: post) ell) st) (eval fns data a) s2 := by
-  rw [eval_call_eq fns data _ ell h he]
-  unfold callStep
+  rw [eval_call_eq fns data _ ell h he, callStep_of_ok fns pv _ ell _ h1]
   have hemp : (pre ++ a :: post).isEmpty = false := by cases pre <;> rfl
   simp only [hf, hemp, Bool.not_true, Bool.false_eq_true, if_false]
-  rw [bind_apply_ok (hasErr_apply s1)]
-  simp only [h1, Option.isSome_none, Bool.false_eq_true, if_false]
   rw [evalArgs_append_fn, bind_assoc, bind_apply_ok hpre]
   simp only [evalArgs, bind_assoc, pure_bind]
-  refine ⟨_, fun v => ?_, rfl⟩
-  exact Resp.bind RM.good (evalArgs_mono fns data post) (fun ws =>
-    Resp.bind RM.good (Resp.hasErr RM.good) (fun b => by
-      split
-      · exact Resp.pure RM.good _
-      · exact callFinish_resp fns pv _ ell))
+  exact ⟨_, fun v => callRest_rs fns pv ell (evalArgs_rs fns data post) (fun ws => vs ++ v :: ws), rfl⟩
 
 end through
 
@@ -631,6 +614,31 @@ theorem EvalAt.through {e e' : E} {st st' : St} (h : EvalAt fns data e st e' st'
   | callee args ell h _ ih => exact Through.trans (through_callee fns data _ args ell h) ih
   | arg pre post ell h he h1 hf hpre _ ih => exact Through.trans (through_arg fns data pre _ post ell h he h1 hf hpre) ih
 
+/-- NOTHING IS CALLED AFTER A FAILURE, anywhere in the expression: if a sub-expression occurrence that is evaluated
+    (from `st'`, at any depth, in any operand position the visitor reaches) ends with the error `x` recorded, in
+    state `s1`, then every normally-returning run of the whole expression ends with exactly this error and with
+    the call log of `s1`: no user function runs after the first failure.  (A run that does not return normally is
+    a Go panic: see `panic_propagates_deep`; calls made BEFORE the failure stay in the log, `calls_before_failure_kept`.) -/
+theorem nothing_called_after_failure {e e' : E} {st st' s1 : St} {v : Val} {x : Err}
+    (h : EvalAt fns data e st e' st') (he : eval fns data e' st' = .ok (v, s1)) (hx : s1.err = some x) :
+    ∀ w s, eval fns data e st = .ok (w, s) → s.err = some x ∧ s.calls = s1.calls :=
+  (EvalAt.through fns data h).keeps he hx
+
+/-- the log a sub-evaluation leaves is only extended by the rest of the evaluation -/
+theorem calls_before_failure_kept {e e' : E} {st st' s1 : St} {v : Val}
+    (h : EvalAt fns data e st e' st') (he : eval fns data e' st' = .ok (v, s1)) :
+    ∀ w s, eval fns data e st = .ok (w, s) → s1.calls <:+ s.calls :=
+  (EvalAt.through fns data h).log_grows he
+
+/-- the same with the place of the first failure made explicit: the occurrence `e'` is entered without a recorded
+    error and left with one.  The calls of the whole run are exactly those made up to that point. -/
+theorem first_failure_freezes_log {e e' : E} {st st' s1 s : St} {v w : Val} {x : Err}
+    (h : EvalAt fns data e st e' st') (_h0 : st'.err = none) (he : eval fns data e' st' = .ok (v, s1))
+    (hx : s1.err = some x) (hr : eval fns data e st = .ok (w, s)) :
+    s.err = some x ∧ s.calls = s1.calls ∧ st.calls <:+ s1.calls := by
+  obtain ⟨h1, h2⟩ := nothing_called_after_failure fns data h he hx w s hr
+  exact ⟨h1, h2, h2 ▸ (eval_mono fns data e st w s hr).2⟩
+
 /-- FAILURES PROPAGATE, at every depth: if a sub-expression occurrence that is evaluated (from `st'`) records the
     error `x`, then the whole evaluation either panics (reported as an error by `Evaluate`) or returns with exactly
     this error recorded — it is never reported as a value. -/
@@ -638,7 +646,7 @@ theorem error_propagates_deep {e e' : E} {st st' s1 : St} {v : Val} {x : Err} (h
     (he : eval fns data e' st' = .ok (v, s1)) (hx : s1.err = some x) :
     (∀ w s, eval fns data e st = .ok (w, s) → s.err = some x) ∧ Failed (eval fns data e st) := by
   have key : ∀ w s, eval fns data e st = .ok (w, s) → s.err = some x :=
-    (EvalAt.through fns data h).keeps (fun w s hr => by rw [he] at hr; cases hr; exact hx)
+    fun w s hr => (nothing_called_after_failure fns data h he hx w s hr).1
   refine ⟨key, ?_⟩
   cases hr : eval fns data e st with
   | error u => trivial
@@ -789,8 +797,8 @@ theorem xBoom : eval fnsX dataX (call0 "boom") {} = .ok (.nil, { err := some ePl
 -- 1. stickiness: with an error recorded `ok()` is not called; from a clean state it is (xOk)
 example : eval fnsX dataX (call0 "ok") { err := some eNoSuch } = .ok (.nil, { err := some eNoSuch }) :=
   sticky_is_first_failure fnsX dataX (by decide) rfl
-example : ¬ NoUncondPanic (.lit "imag" "1i") := by decide
-example : eval fnsX dataX (.lit "imag" "1i") { err := some eNoSuch } = .error () :=
+example : ¬ NoUncondPanic (.lit "other" "?") := by decide
+example : eval fnsX dataX (.lit "other" "?") { err := some eNoSuch } = .error () :=
   sticky_exception_exact fnsX dataX (by decide) _
 example : eval fnsX dataX (.un "&" (.name "n")) {} = .error () := un_amp_panics fnsX dataX rfl xN
 example : evalArgs fnsX dataX [call0 "ok", call0 "boom"] { err := some eNoSuch }
@@ -847,10 +855,12 @@ example : Failed (eval fnsX dataX (.index (.name "n") (call0 "fail")) {}) :=
 example : Failed (eval fnsX dataX (.slice (.name "nosuch") (some (call0 "ok")) none none) {}) :=
   (error_propagates_slice_base fnsX dataX _ _ _ rfl xNoSuch rfl).failed
 example : eval fnsX dataX (.call (.name "nosuch") [call0 "ok"] false) {} = .ok (.nil, { err := some eNoSuch }) :=
-  error_propagates_callee_strict fnsX dataX _ false rfl xNoSuch rfl (Or.inl (by simp))
--- `nosuch()`: the first error is kept
-example : ∀ v s, eval fnsX dataX (call0 "nosuch") {} = .ok (v, s) → s.err = some eNoSuch ∧ [] <:+ s.calls :=
+  error_propagates_callee fnsX dataX _ false rfl xNoSuch rfl
+-- `nosuch()`: the same without arguments
+example : eval fnsX dataX (call0 "nosuch") {} = .ok (.nil, { err := some eNoSuch }) :=
   error_propagates_callee fnsX dataX [] false rfl xNoSuch rfl
+example : Failed (eval fnsX dataX (call0 "nosuch") {}) :=
+  (error_propagates_callee_keeps fnsX dataX [] false rfl xNoSuch rfl).failed
 -- what the user functions of the environment do: `fail()` returns a non-nil error, `boom()` panics, `id()` lacks
 -- an argument (reflect.Call panics, recovered by callFunc)
 example : ∃ s, invoke fnsX (.func "fail") [] {} = .ok (.nil, s) ∧ s.err = some eSentinel :=
@@ -866,14 +876,55 @@ example : ∀ w s, eval fnsX dataX (.call (.name "id") [call0 "fail"] false) {} 
 example : runIs (eval fnsX dataX (.call (.name "id") [call0 "fail"] false) {}) .nil
     { err := some eSentinel, calls := ["fail"] } = true := by decide +kernel
 
-/-- FINDING: the function stored under `"f<nil>"` is called although `nosuch` has failed before — the visitor goes
-    on with nil after a failure, `"f" + nil` is `"f<nil>"`, and a call without arguments does not re-check the
-    error.  The Go code does the same (`m["f" + nosuch]()` with `m = {"f<nil>": func}` calls the function and
-    `Evaluate` returns `(1, error)`).  The evaluation fails with the first error, as `error_propagates_callee` says. -/
-theorem call_after_failure :
-    runIs (eval fnsX dataX
-      (.call (.index (.name "m") (.bin "+" (.lit "str" "\"f\"") (.name "nosuch"))) [] false) {})
-      (.int .int 1) { err := some eNoSuch, calls := ["ok"] } = true := by decide +kernel
+/-- `m["f" + nosuch]`: the callee expression of the former finding.  `nosuch` fails, the visitor goes on with nil,
+    `"f" + nil` is `"f<nil>"`, and the lookup under that key succeeds: a failed evaluation that yields a FUNCTION. -/
+def calleeAfterFailure : E := .index (.name "m") (.bin "+" (.lit "str" "\"f\"") (.name "nosuch"))
+
+theorem xCalleeAfter : eval fnsX dataX calleeAfterFailure {} = .ok (.func "ok", { err := some eNoSuch }) :=
+  runIs_sound (by decide +kernel)
+theorem xCalleeAfter' : eval fnsX dataX calleeAfterFailure { calls := ["ok"] }
+    = .ok (.func "ok", { err := some eNoSuch, calls := ["ok"] }) :=
+  runIs_sound (by decide +kernel)
+
+/-- FIXED FINDING: `m["f" + nosuch]()` with `m = {"f<nil>": ok}` used to CALL `ok` although `nosuch` had failed
+    before (result `1`, log `["ok"]`, error `nosuch`).  With the re-check after the primary expression the call
+    returns nil, the log stays empty and the `nosuch` error is reported. -/
+theorem no_call_after_failure :
+    runIs (eval fnsX dataX (.call calleeAfterFailure [] false) {}) .nil { err := some eNoSuch, calls := [] } = true := by
+  decide +kernel
+
+-- the same from the general lemma (the callee value is `.func "ok"`, not nil)
+example : eval fnsX dataX (.call calleeAfterFailure [] false) {} = .ok (.nil, { err := some eNoSuch }) :=
+  error_propagates_callee fnsX dataX [] false rfl xCalleeAfter rfl
+
+-- nothing is called after the first failure: `(ok() + m["f" + nosuch]()) + ok()` — one call before the failure,
+-- the failure inside a callee, one call after it that does not happen
+example : ∀ w s, eval fnsX dataX
+      (.bin "+" (.bin "+" (call0 "ok") (.call calleeAfterFailure [] false)) (call0 "ok")) {} = .ok (w, s) →
+    s.err = some eNoSuch ∧ s.calls = ["ok"] :=
+  nothing_called_after_failure fnsX dataX
+    (EvalAt.binL "+" _ rfl
+      (EvalAt.binR rfl xOk (fun h => absurd h (by decide)) (fun h => absurd h (by decide))
+        (EvalAt.callee [] false rfl (EvalAt.here _ _))))
+    xCalleeAfter' rfl
+-- … and the hypothesis "the run returns" is satisfiable: this is the run
+example : runIs (eval fnsX dataX
+      (.bin "+" (.bin "+" (call0 "ok") (.call calleeAfterFailure [] false)) (call0 "ok")) {})
+    .nil { err := some eNoSuch, calls := ["ok"] } = true := by decide +kernel
+example : ∀ w s, eval fnsX dataX (.bin "+" (call0 "ok") (.call calleeAfterFailure [] false)) {} = .ok (w, s) →
+    (["ok"] : List String) <:+ s.calls :=
+  calls_before_failure_kept fnsX dataX
+    (EvalAt.binR rfl xOk (fun h => absurd h (by decide)) (fun h => absurd h (by decide))
+      (EvalAt.callee [] false rfl (EvalAt.here _ _)))
+    xCalleeAfter'
+example : ({ err := some eNoSuch, calls := ["ok"] } : St).err = some eNoSuch ∧
+    ({ err := some eNoSuch, calls := ["ok"] } : St).calls = ["ok"] ∧ ([] : List String) <:+ ["ok"] :=
+  first_failure_freezes_log fnsX dataX (st := {}) (w := .nil)
+    (e := .bin "+" (call0 "ok") (.call calleeAfterFailure [] false))
+    (EvalAt.binR rfl xOk (fun h => absurd h (by decide)) (fun h => absurd h (by decide))
+      (EvalAt.callee [] false rfl (EvalAt.here _ _)))
+    rfl xCalleeAfter' rfl
+    (runIs_sound (v := .nil) (s := { err := some eNoSuch, calls := ["ok"] }) (by decide +kernel))
 
 -- at depth: `t && (n + id(-nosuch))` — the failing leaf sits under `&&` (right), `+` (right), a call argument, `-`
 example : Failed (eval fnsX dataX
